@@ -153,6 +153,11 @@ def main(run: core.Run) -> None:
         run.sample({"src": m["src"]})
     for m in near[:3]:
         run.sample({"near_miss": m["near_miss"], "src": m["src"]})
+    gen_ties = [t for t in ties if not t["meta"].get("near_miss")]
+    if gen_ties:
+        _, ssf, sstats = c01.guarded_search(run, gen_ties, semantic=False, structural=True)
+        sf += ssf
+        stats.update(sstats)
     sf = c01.split_known(run, sf, findings)
     c01.verdict(run, audit, stats, features, ties, sf, "C02", PROP_MODULES, refusals)
     gen_refused = stats["refused"] - stats.get("near_miss_programs", 0) + sum(
